@@ -17,42 +17,55 @@ def extract():
     raw = read("src/value_stream.rs")
     src = test_mod_cut(strip(raw))
     f = {}
+    # Forms of the property-relevant statements that are not recognised are NOT a reason to fall back to the
+    # committed defaults (that would hide exactly the dangerous rewrites): the fact keeps its specification value so
+    # the model still runs, and the statement is listed here; `C09.source_forms_recognised` demands the list be empty.
+    unrec = []
+    f["unrecognised"] = unrec
     # --- ChunkSink -------------------------------------------------------------------------------
     wimpl = impl_block(src, r"impl\s+Write\s+for\s+ChunkSink\s*\{")
     wbody = _ws(fn_body(wimpl, "write"))
     m = re.search(r"if self\.buf\.len\(\) (>=|>|==) self\.chunk_bytes \{ self\.send_chunk\(\)\?; \}", wbody)
-    if not m: raise ExtractError("ChunkSink::write: chunk-full test")
-    f["sinkFull"] = CMP[m.group(1)]
-    if not re.search(r"let space = self\.chunk_bytes - self\.buf\.len\(\); let take = space\.min\(data\.len\(\)\); "
-                     r"self\.buf\.extend_from_slice\(&data\[\.\.take\]\); data = &data\[take\.\.\];", wbody):
-        raise ExtractError("ChunkSink::write: loop body")
+    m2 = re.search(r"if self\.chunk_bytes (<=|<|==) self\.buf\.len\(\) \{ self\.send_chunk\(\)\?; \}", wbody)
+    if m: f["sinkFull"] = CMP[m.group(1)]
+    elif m2: f["sinkFull"] = {"<=": "ge", "<": "gt", "==": "eq"}[m2.group(1)]
+    else: f["sinkFull"] = "ge"; unrec.append("ChunkSink::write: chunk-full test")
+    if not re.search(r"let (\w+) = self\.chunk_bytes - self\.buf\.len\(\); let (\w+) = (?:\1\.min\(data\.len\(\)\)|data\.len\(\)\.min\(\1\)|std::cmp::min\(\1, data\.len\(\)\)|std::cmp::min\(data\.len\(\), \1\)); "
+                     r"self\.buf\.extend_from_slice\(&data\[\.\.\2\]\); data = &data\[\2\.\.\];", wbody):
+        unrec.append("ChunkSink::write: loop body")
     fl = statements(fn_body(wimpl, "flush"))
     if fl == ["Ok(())"]: f["flushEmits"] = False
     elif any("send_chunk" in s or "flush_remaining" in s for s in fl): f["flushEmits"] = True
-    else: raise ExtractError(f"ChunkSink::flush: {fl}")
+    else: f["flushEmits"] = False; unrec.append(f"ChunkSink::flush: {fl}")
     simpl = impl_block(src, r"impl\s+ChunkSink\s*\{")
     fr = _ws(fn_body(simpl, "flush_remaining"))
     if fr == "if self.buf.is_empty() { Ok(()) } else { self.send_chunk() }": f["flushRemainingSkipsEmpty"] = True
     elif fr == "self.send_chunk()": f["flushRemainingSkipsEmpty"] = False
-    else: raise ExtractError(f"flush_remaining: {fr}")
+    elif fr in ("if !self.buf.is_empty() { self.send_chunk() } else { Ok(()) }", "if self.buf.is_empty() { return Ok(()); } self.send_chunk()"):
+        f["flushRemainingSkipsEmpty"] = True
+    else: f["flushRemainingSkipsEmpty"] = True; unrec.append(f"flush_remaining: {fr}")
     sc = _ws(fn_body(simpl, "send_chunk"))
-    if not re.search(r"let chunk = std::mem::replace\(&mut self\.buf, Vec::with_capacity\(self\.chunk_bytes\)\); "
-                     r"self\.tx \.send\(Msg::Chunk\(chunk\)\)", sc):
-        raise ExtractError(f"send_chunk: {sc}")
+    if not re.search(r"let (\w+) = (?:std::mem::replace\(&mut self\.buf, Vec::with_capacity\(self\.chunk_bytes\)\)|std::mem::take\(&mut self\.buf\)); "
+                     r"self\.tx \.send\(Msg::Chunk\(\1\)\)", sc):
+        unrec.append(f"send_chunk: {sc}")
     # --- produce ----------------------------------------------------------------------------------
     pb = _ws(fn_body(src, "produce"))
-    if "Ok(()) => tx.send(Msg::End)" not in pb: raise ExtractError("produce: Ok arm")
+    if "Ok(()) => tx.send(Msg::End)" not in pb: unrec.append("produce: Ok arm")
     if re.search(r"Err\(\w+\) => tx\.send\(Msg::Fail\(", pb): f["failSendsFail"] = True
     elif re.search(r"Err\(\w+\) => tx\.send\(Msg::End\)", pb): f["failSendsFail"] = False
-    else: raise ExtractError("produce: Err arm")
-    if not re.search(r"sink\.flush_remaining\(\) \}\)\(\);", pb): raise ExtractError("produce: flush_remaining is the closure's result")
+    else: f["failSendsFail"] = True; unrec.append("produce: Err arm")
+    if not re.search(r"sink\.flush_remaining\(\) \}\)\(\);", pb): unrec.append("produce: flush_remaining is the closure's result")
+    if not re.search(r"match opts\.compression \{ Compression::None => body\(&mut sink\)\?, Compression::Zstd => \{ let mut (\w+) = zstd::stream::write::Encoder::new\(&mut sink, opts\.zstd_level\)\?; body\(&mut \1\)\?; \1\.finish\(\)\?; \} \}", pb):
+        unrec.append("produce: compression match")
     # --- Session::pull / Session::recv, arm by arm ----------------------------------------------------
     ses = impl_block(src, r"impl\s+Session\s*\{")
     pb2 = _ws(fn_body(ses, "pull"))
     m = re.fullmatch(r"let current = match self\.lookahead\.take\(\) \{ Some\(c\) => c, None => match self\.recv\(\) \{ "
                      r"Msg::Chunk\(c\) => (.*?), Msg::End => (.*?), Msg::Fail\(e\) => (.*?), \}, \}; "
                      r"match self\.recv\(\) \{ Msg::Chunk\(next\) => (.*?) Msg::End => (.*?), Msg::Fail\(e\) => (.*?), \}", pb2)
-    if not m: raise ExtractError("Session::pull: shape")
+    if not m:
+        unrec.append("Session::pull: shape")
+        m = re.fullmatch(r"(x)(x)(x)(x)(x)(x)", "xxxxxx")
     FIRST = {"c": "hold", "return Ok((Vec::new(), true))": "emptyLast", "return Err(e)": "err"}
     PEEK = {"{ self.lookahead = Some(next); Ok((current, false)) }": "more", "{ Ok((current, false)) }": "moreDrop",
             "Ok((current, false))": "moreDrop", "Ok((current, true))": "last", "Err(e)": "err",
@@ -65,45 +78,75 @@ def extract():
     rv = _ws(fn_body(ses, "recv"))
     if re.fullmatch(r'self\.rx\.recv\(\)\.unwrap_or_else\(\|_\| \{ Msg::Fail\(" "\.to_string\(\)\) \}\)', rv): f["pull"]["closeIsFail"] = True
     elif re.fullmatch(r"self\.rx\.recv\(\)\.unwrap_or_else\(\|_\| \{ Msg::End \}\)", rv) or rv == "self.rx.recv().unwrap_or(Msg::End)": f["pull"]["closeIsFail"] = False
-    else: raise ExtractError(f"Session::recv: {rv}")
+    else: f["pull"]["closeIsFail"] = True; unrec.append(f"Session::recv: {rv}")
     # --- NextHandler ------------------------------------------------------------------------------
     nimpl = impl_block(src, r"impl\s+HandlerErased\s+for\s+NextHandler\s*\{")
     nb = _ws(fn_body(nimpl, "handle"))
     ipull = nb.find("guard.pull()")
-    if ipull < 0: raise ExtractError("NextHandler: guard.pull()")
+    if ipull < 0: unrec.append("NextHandler: guard.pull()")
     m = re.search(r"if guard\.done \{ Err\([^{}]*\) \} else \{", nb)
     f["doneChecked"] = bool(m and m.end() <= ipull)
+    if not m and "done" in nb.split("guard.pull()")[0]: unrec.append("NextHandler: done test")
+    if not re.search(r"let Some\(session\) = self\.table\.get\(next\.stream_id\) else \{ return Ok\(error_like\(", nb):
+        unrec.append("NextHandler: unknown-id branch")
+    if not re.search(r"let mut guard = session\.lock\(\)\.unwrap\(\);", nb): unrec.append("NextHandler: session lock")
     m = re.search(r"if matches!\(pulled, ([^;{}]*?)\) \{ guard\.done = true; \}", nb)
     arms = [a.strip() for a in m.group(1).split("|")] if m else []
+    if not m and "done = true" in nb: unrec.append("NextHandler: done assignment")
     for a in arms:
-        if a not in ("Ok((_, true))", "Err(_)"): raise ExtractError(f"NextHandler: done arm {a}")
+        if a not in ("Ok((_, true))", "Err(_)"): unrec.append(f"NextHandler: done arm {a}")
     f["doneOnLast"] = "Ok((_, true))" in arms
     f["doneOnErr"] = "Err(_)" in arms
     mo = re.search(r"match outcome \{ Ok\(\(chunk, last\)\) => \{(.*?)Ok\(chunk_response\(req, chunk, last\)\) \} Err\(msg\) => \{(.*?)Ok\(error_like\(", nb)
-    if not mo: raise ExtractError("NextHandler: outcome match")
-    okarm, errarm = mo.group(1).strip(), mo.group(2).strip()
+    if not mo: unrec.append("NextHandler: outcome match")
+    okarm, errarm = (mo.group(1).strip(), mo.group(2).strip()) if mo else ("if last { self.table.remove(next.stream_id); }", "self.table.remove(next.stream_id);")
     if okarm == "if last { self.table.remove(next.stream_id); }": f["removeOnLast"] = True
     elif okarm == "": f["removeOnLast"] = False
-    else: raise ExtractError(f"NextHandler: ok arm {okarm}")
+    else: f["removeOnLast"] = True; unrec.append(f"NextHandler: ok arm {okarm}")
     if errarm == "self.table.remove(next.stream_id);": f["removeOnErr"] = True
     elif errarm == "": f["removeOnErr"] = False
-    else: raise ExtractError(f"NextHandler: err arm {errarm}")
+    else: f["removeOnErr"] = True; unrec.append(f"NextHandler: err arm {errarm}")
     # --- last byte ---------------------------------------------------------------------------------
     cr = _ws(fn_body(src, "chunk_response"))
     if ".query_bytes(vec![last as u8])" in cr: f["lastByte"] = 1
-    else: raise ExtractError("chunk_response: query bytes")
+    elif re.search(r"\.query_bytes\(vec!\[u8::from\(last\)\]\)", cr): f["lastByte"] = 1
+    else: f["lastByte"] = 1; unrec.append("chunk_response: query bytes")
     rimpl = impl_block(src, r"impl<'a>\s+ChunkReader<'a>\s*\{")
-    m = re.search(r"let last = resp\.query\.first\(\)\.copied\(\) == Some\((\d+)\);", _ws(fn_body(rimpl, "fetch")))
-    if not m: raise ExtractError("ChunkReader::fetch: last test")
-    f["syncLastIs"] = int(m.group(1))
+    LAST = r"let (\w+) = resp\.query\.first\(\)\.copied\(\) == Some\((\d+)(?:u8)?\);"
+    fb = _ws(fn_body(rimpl, "fetch"))
+    m = re.search(LAST, fb)
+    if m: f["syncLastIs"] = int(m.group(2))
+    else: f["syncLastIs"] = 1; unrec.append("ChunkReader::fetch: last test")
+    if not re.search(r"self\.buf = resp\.body; self\.pos = 0; if (\w+) \{ self\.last_seen = true; self\.finished = true; \} Ok\(\(\)\)$", fb):
+        unrec.append("ChunkReader::fetch: buffer / finished update")
+    if not re.search(r"let resp = self \.client \.call_with_formats\( ROUTE_NEXT, QueryFormat::JsonPointer as u16, Some\(&body\), BodyFormat::Beve as u16, \) \.map_err\(", fb):
+        unrec.append("ChunkReader::fetch: the one `next` call")
+    rd = _ws(fn_body(impl_block(src, r"impl\s+Read\s+for\s+ChunkReader<'_>\s*\{"), "read"))
+    if rd != ("loop { if self.pos < self.buf.len() { let n = out.len().min(self.buf.len() - self.pos); "
+              "out[..n].copy_from_slice(&self.buf[self.pos..self.pos + n]); self.pos += n; return Ok(n); } "
+              "if self.finished { return Ok(0); } self.fetch()?; }"):
+        unrec.append("ChunkReader::read")
     al = _ws(fn_body(src, "pull_loop_async"))
-    m = re.search(r"let last = resp\.query\.first\(\)\.copied\(\) == Some\((\d+)\);", al)
-    if not m: raise ExtractError("pull_loop_async: last test")
-    f["asyncLastIs"] = int(m.group(1))
+    m = re.search(LAST, al)
+    if m: f["asyncLastIs"] = int(m.group(2))
+    else: f["asyncLastIs"] = 1; unrec.append("pull_loop_async: last test")
+    lastv = m.group(1) if m else "last"
     if "if !resp.body.is_empty() && tx.send(resp.body).await.is_err()" in al: f["asyncSkipsEmpty"] = True
     elif "if tx.send(resp.body).await.is_err()" in al: f["asyncSkipsEmpty"] = False
-    else: raise ExtractError("pull_loop_async: forward test")
-    if not re.search(r"if last \{ return Ok\(\(\)\); \}", al): raise ExtractError("pull_loop_async: stop on last")
+    else: f["asyncSkipsEmpty"] = True; unrec.append("pull_loop_async: forward test")
+    if not re.search(r"if " + lastv + r" \{ return Ok\(\(\)\); \}", al): unrec.append("pull_loop_async: stop on last")
+    cr2 = _ws(fn_body(impl_block(src, r"impl\s+Read\s+for\s+ChannelReader\s*\{"), "read"))
+    if cr2 != ("loop { if self.pos < self.buf.len() { let n = out.len().min(self.buf.len() - self.pos); "
+               "out[..n].copy_from_slice(&self.buf[self.pos..self.pos + n]); self.pos += n; return Ok(n); } "
+               "match self.rx.blocking_recv() { Some(chunk) => { self.buf = chunk; self.pos = 0; } None => return Ok(0), } }"):
+        unrec.append("ChannelReader::read")
+    ob = _ws(fn_body(impl_block(src, r"impl<F>\s+HandlerErased\s+for\s+OpenHandler<F>"), "handle"))
+    if "let stream_id = self.table.next_id.fetch_add(1, Ordering::Relaxed);" not in ob: unrec.append("OpenHandler: id allocation")
+    if "let (tx, rx) = sync_channel::<Msg>(self.opts.session_depth);" not in ob: unrec.append("OpenHandler: channel depth")
+    if "compression: self.opts.compression as u8," not in ob: unrec.append("OpenHandler: compression tag")
+    cb = _ws(fn_body(impl_block(src, r"impl\s+HandlerErased\s+for\s+CancelHandler\s*\{"), "handle"))
+    if not re.search(r"if let Ok\((\w+)\) = beve_from_slice::<CancelRequest>\(&req\.body\) \{ self\.table\.remove\(\1\.stream_id\); \}", cb):
+        unrec.append("CancelHandler: remove")
     # --- formats, routes ---------------------------------------------------------------------------
     consts = strip(read("src/constants.rs"))
     m = re.search(r"pub enum BodyFormat\s*\{([^}]*)\}", consts)
@@ -139,6 +182,7 @@ def render(f):
          "def svsPull : Repe.Svs.PullFacts :=",
          f"  {{ lookaheadFirst := {b(f['pull']['lookaheadFirst'])}, firstChunk := .{f['pull']['firstChunk']}, firstEnd := .{f['pull']['firstEnd']}, firstFail := .{f['pull']['firstFail']},",
          f"    peekChunk := .{f['pull']['peekChunk']}, peekEnd := .{f['pull']['peekEnd']}, peekFail := .{f['pull']['peekFail']}, closeIsFail := {b(f['pull']['closeIsFail'])} }}",
+         "def svsUnrecognised : List String := [" + ", ".join('"' + u.replace('\\', '').replace('"', "'")[:120] + '"' for u in f["unrecognised"]) + "]",
          "def svsFormats : List (String × Nat) := [" + ", ".join(f'("{k}", {v})' for k, v in f["formats"]) + "]",
          "def svsRoutes : List String := [" + ", ".join(f'"{r}"' for r in f["routes"]) + "]",
          "end Repe.Gen"]
